@@ -20,7 +20,7 @@ LOOKALIKE = ["Select2", "count", "ResultParquet", "Zip", "select", "Wheres"]
 
 RULE = (
     "Typed grammar (int / bool / seq / seq-of-seq / result) rendered as source text, every operator drawn in method "
-    "form or function form independently at every depth (sources, lambda bodies, arguments, callee expressions, directly as the seed argument of Aggregate, inside receivers that are an index / a conditional / an attribute of a holder object), with look-alike "
+    "form or function form independently at every depth (sources, lambda bodies, arguments, callee expressions, directly as the seed argument of Aggregate, in default values of lambda parameters, inside receivers that are an index / a conditional / an attribute of a holder object), with look-alike "
     "non-operator methods (Select2, count, ResultParquet, Zip, select, Wheres) and non-call attribute references "
     "(x.Select as a value); in a fifth of the cases the caller passes its own list of known operator names (any subset, also the empty one). Non-trivial = >=2 method-form operator calls at different depths AND >=1 look-alike or "
     "attribute reference. Distinct by source text + data."
@@ -32,7 +32,7 @@ ASSUMPTIONS = [
     "Value equality is checked on the LINQ subset with python sequences; CPython is the evaluator.",
 ]
 BUDGET = {"quick": (4, 1200), "thorough": (16, 10000)}
-EXHAUSTIVE_NOTE = "12 operator names + 6 look-alikes x 19 syntactic positions (incl. keyword-argument values, dict values, tuple/list elements, the callee of a call, directly as a positional argument of a method-form / function-form operator call) x method/function form, fully enumerated"
+EXHAUSTIVE_NOTE = "12 operator names + 6 look-alikes x 21 syntactic positions (incl. keyword-argument values, dict values, tuple/list elements, the callee of a call, directly as a positional argument of a method-form / function-form operator call) x method/function form, fully enumerated"
 
 
 class SeqX(pyeval.Seq):
@@ -127,6 +127,11 @@ def _expr(draw, ty, depth, ivars, svars):
         if k == 1:
             return draw(st.sampled_from(["s0", "s1"] + svars + ["ss0.First()"]))
         v = draw(st.sampled_from(["v", "w", "x"]))
+        if k == 3 and draw(st.booleans()):
+            # a lambda with a second, defaulted parameter (positional or keyword-only): the default is an expression like any other
+            n_ = draw(st.sampled_from(["n", "k"]))
+            star = draw(st.sampled_from(["", "*, "]))
+            return _call(draw, "Select", draw(_expr("S", d, ivars, svars)), [f"lambda {v}, {star}{n_}={draw(_expr('I', d, ivars, svars))}: {draw(_expr('I', d, ivars + [v, n_], svars))}"])
         if k in (2, 3):
             return _call(draw, "Select", draw(_expr("S", d, ivars, svars)), [f"lambda {v}: {draw(_expr('I', d, ivars + [v], svars))}"])
         if k == 4:
@@ -258,6 +263,8 @@ def exhaustive(tier):
         "(lambda z: {X})(1)",
         "[lambda z: {X}][0](1)",
         "ident(lambda z: {X})(1)",
+        "Count(Select(s0, lambda q, n={X}: keep(n, q)))",
+        "Count((s0).Select(lambda q, *, n=keep({X}, 1): q + n))",
         "keep(0, (ss0.Select(lambda q: keep({X}, q)))[0].Count())",
         "((s0).Where(lambda q: keep({X}, True)) if n0 > 0 else s1).Count()",
         "box((s0).Select(lambda q: keep({X}, q))).seq.Count()",
